@@ -20,6 +20,7 @@ CONSTANTS K,        \* refinement depth bound
           Shard,    \* ... this one takes the roots with index % NShards = Shard
           Emit,     \* print every distinct state as a JSON line
           RootSel,  \* "all" or one root kind
+          KU,       \* unknown keys below union positions are added to states of depth < KU
           KV        \* variants (deviations, dropped specials, unknown keys) are taken from states of depth < KV (0 = none)
 
 Root(kind, name) == [kind |-> kind, name |-> name]
@@ -193,6 +194,23 @@ Unk(ob, j, payload) ==
             UNION { { [j EXCEPT !.f[key] = c] : c \in Unk(ob.f[key], j.f[key], payload) } : key \in DOMAIN ob.f }
       [] OTHER -> {}
 
+\* the same, but only at nodes at or below a property whose type contains a real union (where
+\* hand-written hooks look at keys); used for deeper states
+UnkPayloads == <<JObj("a" :> JObj("b" :> JNull))>>
+RECURSIVE UnkU(_, _, _)
+UnkU(ob, j, payload) ==
+    CASE ob.k = "inst" ->
+            UNION { LET p == PropNamed(PropsOf(ob.cls), n) IN
+                    IF HasRealUnion(p.type)
+                    THEN { [j EXCEPT !.f[n] = c] : c \in Unk(ob.p[n], j.f[n], payload) }
+                    ELSE { [j EXCEPT !.f[n] = c] : c \in UnkU(ob.p[n], j.f[n], payload) }
+                  : n \in DOMAIN ob.p }
+      [] ob.k \in {"arr", "tup"} ->
+            UNION { { [j EXCEPT !.a[i] = c] : c \in UnkU(ob.a[i], j.a[i], payload) } : i \in DOMAIN ob.a }
+      [] ob.k = "map" ->
+            UNION { { [j EXCEPT !.f[key] = c] : c \in UnkU(ob.f[key], j.f[key], payload) } : key \in DOMAIN ob.f }
+      [] OTHER -> {}
+
 (***************************************************************************)
 (* The transition system.                                                   *)
 (***************************************************************************)
@@ -247,13 +265,16 @@ BadEnumValue ==
     /\ UNCHANGED svObj
     /\ Same
 
+\* another string in place of a literal: an unrelated one and the empty string
+OtherLiterals == {"x-other-literal", ""}
 OtherLiteral ==
     /\ CanDeviate
     /\ \E i \in DOMAIN TopProps(svRoot) : LET p == TopProps(svRoot)[i] IN
           /\ IsLit(p)
-          /\ svObj' = [svObj EXCEPT !.p = (p.name :> JStr("x-other-literal")) @@ svObj.p]
-          /\ svW' = WithKey(svW, p.name, JStr("x-other-literal"))
-          /\ svVar' = PropV("lit", p.name)
+          /\ \E s \in OtherLiterals \ {p.type.value} :
+                /\ svObj' = [svObj EXCEPT !.p = (p.name :> JStr(s)) @@ svObj.p]
+                /\ svW' = WithKey(svW, p.name, JStr(s))
+                /\ svVar' = PropV("lit", p.name)
     /\ Same
 
 DropSpecial ==
@@ -273,7 +294,15 @@ AddUnknown ==
     /\ UNCHANGED svObj
     /\ Same
 
-Vary == DropRequired \/ IntValue \/ BadEnumValue \/ OtherLiteral \/ DropSpecial \/ AddUnknown
+AddUnknownBelowUnion ==
+    /\ svVar.vk = "none" /\ svDepth < KU /\ svDepth >= KV
+    /\ \E pl \in DOMAIN UnkPayloads : \E j2 \in UnkU(svObj, svW, UnkPayloads[pl]) :
+          /\ svW' = j2
+          /\ svVar' = [vk |-> "unk", name |-> UnkKey]
+    /\ UNCHANGED svObj
+    /\ Same
+
+Vary == AddUnknownBelowUnion \/ DropRequired \/ IntValue \/ BadEnumValue \/ OtherLiteral \/ DropSpecial \/ AddUnknown
 Next == Refine \/ Vary
 Spec == Init /\ [][Next]_vars
 
